@@ -407,15 +407,16 @@ def _check_for_modified_notes(
         if note.modify_date != today and note_has_changed:
             note.modify_date = today
             modify_short_date = zdt.to_short_date_spec(dt.date.today())
-            # If the modify date is the same as the create date, then no modify
-            # date spec should exist yet...
+            # If the note's body does not start with a modify date spec yet,
+            # then we just need to add one...
             assert old_note is not None
-            if old_note.modify_date == note.create_date:
+            body_words = note.body.lstrip().split(" ")
+            if not zdt.is_short_date_spec(body_words[0]):
                 old_body = f"{note.body.lstrip()}"
             # Otherwise, we need to remove the old modify date spec before
             # adding the new one.
             else:
-                old_body = " ".join(note.body.lstrip().split(" ")[1:])
+                old_body = " ".join(body_words[1:])
             note.body = f"{modify_short_date} {old_body}"
             modified_notes.append(note)
     if modified_notes:
